@@ -43,8 +43,8 @@ type runTarget struct {
 func (t *runTarget) Evaluate(engine runner.Engine) error {
 	proj, label, info := t.target.Project(), t.target.Label(), t.target.info()
 
-	// Copy the current version of the data.
-	t.data = info.Data
+	// Copy the current version of the stamp.
+	t.data = info.stamp()
 
 	// Evaluate the target's dependencies.
 	depsUpToDate := true
@@ -121,21 +121,28 @@ func (t *runTarget) Evaluate(engine runner.Engine) error {
 			Doc:          t.target.Doc(),
 			Dependencies: depData,
 			Rerun:        true,
+			Runs:         info.Runs,
 		})
 		return err
 	}
 
 	// Save the target's metadata.
-	t.changed = changed
-	if changed {
-		t.data = data
-	}
-	verifPoint("target.record.success", label.String())
-	err = proj.saveTargetInfo(label, targetInfo{
+	newInfo := targetInfo{
 		Doc:          t.target.Doc(),
 		Dependencies: depData,
-		Data:         t.data,
-	})
+		Data:         info.Data,
+		Runs:         info.Runs,
+	}
+	t.changed = changed
+	if changed {
+		newInfo.Data = data
+		if IsTarget(label) {
+			newInfo.Runs++
+		}
+	}
+	t.data = newInfo.stamp()
+	verifPoint("target.record.success", label.String())
+	err = proj.saveTargetInfo(label, newInfo)
 	if err != nil {
 		proj.events.TargetFailed(label, err)
 		return err
